@@ -253,7 +253,7 @@ class Large(Component):
     rule = "a 'must' pair at distance >= 1 and a q-gram-sharing pair that does not satisfy"
 
     def examples(self, tier):
-        return 15 if tier == "quick" else 60
+        return 15 if tier == "quick" else 200
 
     def strategy(self, tier):
         return large_ed_case(tier)
